@@ -23,3 +23,23 @@ pub fn vx_iter_join_nl(it: VxIter<String>) -> (r: String)
 pub fn vx_vec_join(v: &Vec<String>, sep: &str) -> (r: String)
     ensures r@ == join_seqs(strs_view(v@), sep@)
 { unimplemented!() }
+
+// ---- verified lemma (nothing trusted below) ----
+/// join of a non-empty list with one more piece in front
+pub proof fn lemma_join_front(a: Seq<char>, r: Seq<Seq<char>>, sep: Seq<char>)
+    requires r.len() >= 1
+    ensures join_seqs(seq![a] + r, sep) == a + sep + join_seqs(r, sep)
+    decreases r.len()
+{
+    let x = seq![a] + r;
+    if r.len() == 1 {
+        assert(x.drop_last() =~= seq![a]);
+        assert(x.last() == r[0]);
+        assert(join_seqs(x.drop_last(), sep) == a);
+    } else {
+        lemma_join_front(a, r.drop_last(), sep);
+        assert(x.drop_last() =~= seq![a] + r.drop_last());
+        assert(x.last() == r.last());
+        assert(join_seqs(x, sep) =~= a + sep + join_seqs(r, sep));
+    }
+}
